@@ -117,8 +117,12 @@ func init() {
 		Run: func(files, deps map[string]string, tag, out string, wild bool) (map[string]string, *common.USnap, error) {
 			gopathMu.Lock()
 			defer gopathMu.Unlock()
-			root, err := os.MkdirTemp("", "verif-bt-")
-			if err != nil {
+			// one and the same directory for every run of this process (runs are serialised by the lock): tools with
+			// different tags then meet the same paths, as they do when several tools run over one tree in one process
+			root := filepath.Join(os.TempDir(), fmt.Sprintf("verif-bt-tree-%d", os.Getpid()))
+			os.RemoveAll(root)
+			var err error
+			if err = os.MkdirAll(root, 0o755); err != nil {
 				return nil, nil, err
 			}
 			defer os.RemoveAll(root)
